@@ -1,7 +1,11 @@
 //@ ret r
 //@ contract
+            requires
+                named_params_have_static_schemas(e.parameters@),
             ensures
-                (r is Ok) == (tags_ok(*old(s), e) && path_parameters_ok(e) && named_parameters_ok(e)), // @registered_iff_all_validations_pass
+                r is Ok ==> tags_ok(*old(s), e) && path_parameters_ok(e) && named_parameters_ok(e), // @registered_only_if_all_validations_pass
+                (tags_ok(*old(s), e) && path_parameters_ok(e)
+                    && (forall|i: int| 0 <= i < e.parameters@.len() ==> named_param_may(e.path@, #[trigger] e.parameters@[i]))) ==> r is Ok, // @an_endpoint_without_these_conflicts_reaches_the_router
                 r is Ok ==> final(s).router.routes@ == old(s).router.routes@.push(e), // @accepted_endpoint_is_inserted
                 r is Err ==> final(s).router == old(s).router, // @rejected_endpoint_leaves_router_untouched
                 final(s).tag_config == old(s).tag_config, // @tag_config_unchanged
